@@ -50,3 +50,6 @@ import LapyVerif.Bridge.VertexMeasures
 #print axioms LapyVerif.Bridge.vm_vnormal0
 #print axioms LapyVerif.Bridge.vm_vnormal3
 #print axioms LapyVerif.Bridge.vm_offset0
+#print axioms LapyVerif.Bridge.census_Measures_pcCount
+#print axioms LapyVerif.Bridge.census_VertexMeasures_pcCount
+#print axioms LapyVerif.Bridge.census_TransferTri_pcCount
